@@ -58,9 +58,6 @@ func recordTx(t *rapid.T, e *env, g *opGen, nops, nblocks int, commit bool) recT
 	if commit {
 		if err != nil {
 			sig := ""
-			if p.prunes > 1 {
-				sig = sigPruneTwice
-			}
 			e.failf(sig, "Update returned %v for a closure that returned nil", err)
 		}
 		p.m.Commit()
@@ -232,9 +229,6 @@ func TestFaultEnumeration(t *testing.T) {
 			})
 			if uerr != nil {
 				sig := ""
-				if p.prunes > 1 {
-					sig = sigPruneTwice
-				}
 				re.failf(sig, "clean run of the target transaction failed: %v", uerr)
 			}
 			p.m.Commit()
